@@ -10,6 +10,7 @@ from ..redcase import (
     ALL_TREE_FUNCS,
     call_chunked,
     call_eager,
+    decode_case,
     exec_sim,
     gen_reduce_case,
     nblocks_reduced,
@@ -17,6 +18,7 @@ from ..redcase import (
     shrink_reduce,
     simplify_knobs,
 )
+from ..refmodel import present_labels
 from ..runner import REFUSALS, Skip, classify_exception
 from ..simexec import RunInfo
 from ..tape import Tape
@@ -39,7 +41,7 @@ ASSUMPTIONS = [
     "a kernel that is wrong in the same way eagerly and per block is invisible to this oracle (C01 is not a simulation target)",
     "sampled, not exhaustive",
 ]
-PROBES = ["tree_depth>=3", "resolved_cohorts", "resolved_blockwise", "resolved_mapreduce", "cohorts_multi",
+PROBES = ["tree_depth>=3", "sort_false_mapping", "resolved_cohorts", "resolved_blockwise", "resolved_mapreduce", "cohorts_multi",
           "by_dask_unknown_groups", "block_all_missing_labels", "blockwise_rechunk", "crash_recomputed_released_key"]
 
 
@@ -79,7 +81,16 @@ def gen(tape: Tape, tier: str) -> dict:
         max_ndim=3,
         by_dask_p=0.2,
         missing_label_p=0.2,
+        sort_choices=(True, True, True, False),
     )
+
+
+def _by_label(res):
+    labs = np.asarray(res[1])
+    if labs.ndim != 1 or np.asarray(res[0]).shape[-1:] != labs.shape:
+        return res
+    order = np.argsort(labs, kind="stable")
+    return (np.asarray(res[0])[..., order], labs[order])
 
 
 def run(case, tape: Tape, ctx):
@@ -94,6 +105,11 @@ def run(case, tape: Tape, ctx):
         # no eager reference.  When the chunked call fails the same way while the graph is built the
         # two agree (e.g. no label present at all and no expected_groups: IndexError on both sides);
         # a violation only when the chunked path accepts what the eager path chokes on.
+        _, bys_, _ = decode_case(case)
+        if "expected_groups" not in kw and any(len(present_labels(b)) == 0 for b in bys_):
+            # no valid label at all and none requested: there is no group to compare (the eager path
+            # raises IndexError, dask labels yield one phantom NaN group) - outside the statement
+            raise Skip("no-group-at-all")
         try:
             call_chunked(case)
         except Exception as e2:  # noqa: BLE001
@@ -134,6 +150,10 @@ def run(case, tape: Tape, ctx):
     if info.graph is not None:
         names = {k[0] if isinstance(k, tuple) else k for k in info.graph}
         ctx.probe("blockwise_rechunk", any(isinstance(n, str) and n.startswith("rechunk") for n in names))
+    if kw.get("sort") is False and len(res) == 2 and len(ref) == 2:
+        # label order is C16's subject: compare as a label -> value mapping
+        res, ref = _by_label(res), _by_label(ref)
+        ctx.probe("sort_false_mapping")
     d = results_diff(res, ref, func)
     if d:
         raise Violation(
